@@ -23,7 +23,11 @@ CONFIG = {
              "documents with 3 nodes and the 6808 with 4 nodes sampled under random mixes; a stream of "
              "larger random documents with per-path [rules], [keys] identity keys and INI [defaults]; a malformed "
              "stream (option / rule texts that are no member of the enum).  non-trivial = both documents are "
-             "containers; distinct = distinct (lhs, rhs, options, rules) tuple."),
+             "containers; distinct = distinct (lhs, rhs, options, rules) tuple.  Equality used by the reference policy: "
+             "data equality of the loaded values; a right-hand element is 'already in' the left Array / Set when it "
+             "equals a left element with YAML tags disregarded (the merger's documented tagless comparison), while "
+             "the members of ONE Set are the members the loader presents: a tagged scalar (!t x) is a member of its "
+             "own beside the plain scalar of the same text (random stream: Sets holding both)."),
     "trusted_base": [
         "modelled, not verified: yamlpath/merger/merger.py (_merge_dicts, _merge_simple_lists, "
         "_merge_arrays_of_hashes, _merge_lists, _merge_sets, _insert_*, merge_with), mergerconfig.py, "
@@ -163,6 +167,25 @@ def requests(case):
     return [req]
 
 
+class Timeout(Exception):
+    """a merge that did not return within the deadline: observed as (raise (crash Timeout))"""
+
+
+def with_deadline(fn, secs=20):
+    """run fn() under a wall-clock deadline (as harness/c14.py does for the parser)"""
+    import signal
+
+    def on_alarm(signum, frame):
+        raise Timeout()
+    old = signal.signal(signal.SIGALRM, on_alarm)
+    signal.setitimer(signal.ITIMER_REAL, secs)
+    try:
+        return fn()
+    finally:
+        signal.setitimer(signal.ITIMER_REAL, 0)
+        signal.signal(signal.SIGALRM, old)
+
+
 def observe(case):
     E = _ENV
     got = _CACHE.pop(case_key(case), None)
@@ -172,7 +195,7 @@ def observe(case):
         lhs, rhs, cfg = got
     try:
         m = E["Merger"](E["log"], lhs, cfg)
-        m.merge_with(rhs)
+        with_deadline(lambda: m.merge_with(rhs))
         return ["(ok %s)" % out_doc(m.data)]
     except Exception as e:  # noqa
         return [exc_line(e)]
@@ -188,7 +211,10 @@ class Unjudged(Exception):
 
 
 def plain(x):
-    """Loaded document -> plain comparable data (tags on scalars dropped)."""
+    """Loaded document -> plain comparable data.  A tagged scalar keeps its tag as a
+    third component: ("l", text, tag).  p_eq disregards it (the policies compare
+    left with right elements "tagless", Nodes.tagless_elements); member identity
+    inside ONE set / one de-duplicated list does not (same_member)."""
     E = _ENV
     if isinstance(x, dict):
         return ("m", [(plain(k), plain(v)) for k, v in x.items()])
@@ -197,7 +223,7 @@ def plain(x):
     if docenc.is_set(x):
         return ("t", [plain(e) for e in x])
     if isinstance(x, E["TaggedScalar"]):
-        return ("l", x.value)
+        return ("l", x.value, x.tag.value)
     if isinstance(x, bool) or x is None:
         return ("l", x)
     if isinstance(x, int):
@@ -218,6 +244,59 @@ def p_eq(a, b):
     if a[0] == "t":
         return len(a[1]) == len(b[1]) and all(any(p_eq(x, y) for y in b[1]) for x in a[1])
     return len(a[1]) == len(b[1]) and all(any(p_eq(k, k2) and p_eq(v, v2) for k2, v2 in b[1]) for k, v in a[1])
+
+
+def is_tagged(a):
+    return a[0] == "l" and len(a) > 2
+
+
+def same_member(a, b):
+    """Are a and b ONE member when they sit in the same set, as the YAML loader
+    presents the data?  A tagged scalar (`!t x`) is a member of its own: it is
+    equal neither to the plain scalar of the same text nor to another tagged
+    scalar object (ruamel's TaggedScalar compares by identity; the C05
+    documents hold no aliases)."""
+    if is_tagged(a) or is_tagged(b):
+        return False
+    return p_eq(a, b)
+
+
+def t_eq(a, b):
+    """two sets hold the same members: a one-to-one pairing of members with
+    equal value and equal tag"""
+    if a[0] != "t" or b[0] != "t" or len(a[1]) != len(b[1]):
+        return False
+    rest = list(b[1])
+    for x in a[1]:
+        for i, y in enumerate(rest):
+            if p_eq(x, y) and x[2:] == y[2:]:
+                del rest[i]
+                break
+        else:
+            return False
+    return True
+
+
+def d_eq(a, b):
+    """data equality IN FULL (AoH UNIQUE: "RHS Hashes which do not already exist IN FULL
+    within LHS"): values and YAML tags.  `!t 1` and `'1'` are different data.  Whether two
+    tagged scalars of equal tag and text are ONE element is left unjudged: ruamel's
+    TaggedScalar has no __eq__ (identity), the text does not say (cf. C06 finding F1)."""
+    if a[0] != b[0]:
+        return False
+    if a[0] == "l":
+        if is_tagged(a) != is_tagged(b):
+            return False
+        if not p_eq(a, b) or a[2:] != b[2:]:
+            return False
+        if is_tagged(a):
+            raise Unjudged("equality of two tagged scalars")
+        return True
+    if a[0] == "s":
+        return len(a[1]) == len(b[1]) and all(d_eq(x, y) for x, y in zip(a[1], b[1]))
+    if a[0] == "t":
+        return len(a[1]) == len(b[1]) and all(any(d_eq(x, y) for y in b[1]) for x in a[1])
+    return len(a[1]) == len(b[1]) and all(any(p_eq(k, k2) and d_eq(v, v2) for k2, v2 in b[1]) for k, v in a[1])
 
 
 def p_get(m, k):
@@ -286,7 +365,7 @@ def ref_array(pol, path, l, r, idkey_path):
             return ("s", out + r[1])
         if mode == "unique":
             for e in r[1]:
-                if not any(p_eq(e, x) for x in out):
+                if not any(d_eq(e, x) for x in out):
                     out.append(e)
             return ("s", out)
         # deep: by identity key
@@ -339,11 +418,20 @@ def ref_set(pol, path, l, r):
         return l
     if mode == "right":
         return r
-    out = list(l[1])
+    # "Only RHS Set elements not already in LHS Sets are appended": a right-hand member is
+    # "already in" the left Set when it equals a LEFT member with tags disregarded; the
+    # right-hand members themselves are distinct members of the right-hand Set as the loader
+    # presents it (`!t x` and `x` are two members), so each of the remaining ones is appended
+    # once.  (r may also be a list / a single scalar wrapped by the caller: equal plain
+    # elements are then one member.)
+    added = []
     for e in r[1]:
-        if not any(p_eq(e, x) for x in out):
-            out.append(e)
-    return ("t", out)
+        if any(p_eq(e, x) for x in l[1]):
+            continue
+        if any(same_member(e, x) for x in added):
+            continue
+        added.append(e)
+    return ("t", list(l[1]) + added)
 
 
 def ref_hash_deep(pol, path, l, r):
@@ -383,6 +471,10 @@ def ref_value(pol, path, l, r):
                 return l
             if mode == "right":
                 return r
+        elif pol.from_rule(path) and pol.rules[path].lower() in ("left", "right"):
+            # a per-path rule left / right speaks for this very node whatever its type and, like the
+            # Hash, Set and AoH policies above, decides before the shapes are looked at: nothing is merged
+            return l if pol.rules[path].lower() == "left" else r
         return ref_array(pol, path, l, r, path)
     if r[0] == "t":
         mode = pol.mode("sets", path, SETS, "unique")
@@ -415,7 +507,12 @@ def ref_root(pol, l, r):
         if l[0] == "t":
             if any(e[0] != "l" for e in r[1]):
                 raise Impossible("non-scalars into set")
-            return ref_set(pol, "/", l, ("t", r[1]))
+            # the Array's elements as a Set: equal elements are one member
+            members = []
+            for e in r[1]:
+                if not any(same_member(e, x) for x in members):
+                    members.append(e)
+            return ref_set(pol, "/", l, ("t", members))
         raise Impossible("array into hash / scalar")
     if r[0] == "t":
         if l[0] == "s":
@@ -445,7 +542,7 @@ def same_layout(exp, got):
     if exp[0] == "s":
         return len(exp[1]) == len(got[1]) and all(same_layout(a, b) for a, b in zip(exp[1], got[1]))
     if exp[0] == "t":
-        return p_eq(exp, got)
+        return t_eq(exp, got)
     if len(exp[1]) != len(got[1]):
         return False
     for k, v in exp[1]:
@@ -471,8 +568,23 @@ def left_order_kept(l, got):
     return True
 
 
+def invalid_option_text(case):
+    """some option / rule text is no member of the enumeration it is given for"""
+    lhs_t, rhs_t, opts, rules, keys, ini = case
+    allowed = {"hashes": HASHES, "arrays": ARRAYS, "aoh": AOH, "sets": SETS}
+    for src in (opts, ini or {}):
+        for kind, names in allowed.items():
+            v = src.get(kind)
+            if v and str(v).lower() not in names:
+                return True
+    every = set(HASHES) | set(ARRAYS) | set(AOH) | set(SETS)
+    return any(str(v).lower() not in every for v in (rules or {}).values() if v)
+
+
 def judge(case, obs):
     line = obs[0]
+    if line == "(raise (crash NameError))" and invalid_option_text(case):
+        return None                # a configuration error (unknown option text), wherever it is noticed
     if line.startswith("(raise (crash"):
         try:
             Policy(case)
@@ -535,6 +647,8 @@ def plain_of_line(line):
 
     def go(n):
         if n[0] == "L":
+            if n[5][0] == "o" and n[4] != "none":
+                return ("l", val(n[5]), unhex(n[4]))      # a TaggedScalar: text and tag
             return ("l", val(n[5]))
         if n[0] == "M":
             return ("m", [(go(k), go(v)) for k, v in n[5]])
@@ -571,13 +685,20 @@ def aoh_default_governs_non_aoh(case, obs):
                     if walk(lv[k], v, p):
                         return True
         if isinstance(lv, list) and isinstance(rv, list):
+            # a right-hand record is merged (aoh=deep) into a left record or into a right-hand
+            # record appended before it
+            pool = list(lv)
             for e in rv:
-                for x in lv:
+                for x in pool:
                     if isinstance(e, dict) and isinstance(x, dict) and walk(x, e, path):
                         return True
+                pool.append(e)
         return False
     if isinstance(l, list) and isinstance(r, dict):
         return any(isinstance(x, dict) and walk(x, r, "/") for x in l)
+    if isinstance(l, dict) and docenc.is_set(r):
+        # a Set merged into a Hash: its members become keys holding null Scalars (_insert_set)
+        return any(m in l for m in r)
     return walk(l, r, "/")
 
 
